@@ -16,3 +16,153 @@ def version_supports(a: int, b: int, c: int, x: int, y: int, z: int) -> bool:
     # oracle (statement): same major version, (minor, patch) not newer than the manager's
     want = (a == x) and (y < b or (y == b and z <= c))
     return got == want
+
+
+# ---------------------------------------------------------------------------------------------
+# Bring-up: real TCPServer.run -> real initialize_device / _handle_bootloader / _check_version ->
+# real HSM2Dongle / HSM2DongleTCP / HSM2DongleSGX over the simulated device.
+# ---------------------------------------------------------------------------------------------
+import comm.server as server
+from harness.common import NULL_LOGGER, reraise_control_flow
+from harness.world import make_stack, FixedPin
+from sim.base import blist
+from sim.ledger import SimDevice
+
+PLATFORMS = ["ledger", "tcp", "sgx"]
+MODECLASS = ["bootloader", "signer", "other"]
+# bootloader partitions are split further on (echo ok, pin needs change)
+BRINGUP_PARTS = []
+for _p in PLATFORMS:
+    for _e in (True, False):
+        for _c in (False, True):
+            BRINGUP_PARTS.append((_p, "bootloader", _e, _c))
+    BRINGUP_PARTS.append((_p, "signer", True, False))
+    BRINGUP_PARTS.append((_p, "other", True, False))
+
+
+def bringup_name(i):
+    p, m, e, c = BRINGUP_PARTS[i]
+    return "%s/%s%s%s" % (p, m, "" if m != "bootloader" else ("/echo-ok" if e else "/echo-bad"),
+                          "" if m != "bootloader" else ("/pin-needs-change" if c else "/pin-current"))
+
+
+class _FakeTCPServer:
+    allow_reuse_address = False
+    created = []
+
+    def __init__(self, addr, handler):
+        _FakeTCPServer.created.append(self)
+        self.served = False
+
+    def serve_forever(self):
+        self.served = True
+
+    def server_close(self):
+        pass
+
+    def shutdown(self):
+        pass
+
+
+class _SocketServerStub:
+    TCPServer = _FakeTCPServer
+    StreamRequestHandler = object
+
+
+def supported(v):
+    # the manager is 5.4.1: same major version, minor.patch not newer
+    return v[0] == 5 and (v[1] < 4 or (v[1] == 4 and v[2] <= 1))
+
+
+def run_manager(proto):
+    """Real comm.server.TCPServer.run with socketserver stubbed.  Returns True iff it started serving."""
+    _FakeTCPServer.created = []
+    real = server.socketserver
+    server.socketserver = _SocketServerStub
+    try:
+        srv = server.TCPServer("127.0.0.1", 9999, proto)
+        srv.logger = NULL_LOGGER
+        try:
+            srv.run()
+        except Exception as e:
+            reraise_control_flow(e)
+    finally:
+        server.socketserver = real
+    return len(_FakeTCPServer.created) == 1 and _FakeTCPServer.created[0].served
+
+
+@obligation(tier="quick", parts=len(BRINGUP_PARTS), timeout=150, part_names=bringup_name,
+            bounds="platform x initial mode class x (echo, pin-needs-change) are partitions; symbolic: onboard byte 0..255, UI and signer "
+                   "version triples (6 bytes 0..255), PIN retries 0..255, unlock answer byte 0..255, mode byte after leaving the "
+                   "bootloader 0..255, mode byte of the 'other' class (any byte but 2 and 3), device reaction to a new PIN {ack, refuse, other status, write error, read "
+                   "error, time-out}, PIN commit succeeds / fails",
+            examples=[(0, dict(onb=1, u0=5, u1=4, u2=1, s0=5, s1=4, s2=1, retries=3, unlock=1, after=3, other=4)),
+                      (0, dict(onb=1, u0=5, u1=4, u2=1, s0=5, s1=4, s2=1, retries=1, unlock=1, after=3, other=4)),
+                      (4, dict(onb=1, u0=5, u1=4, u2=1, s0=5, s1=5, s2=0, retries=3, unlock=1, after=3, other=4)),
+                      (4, dict(onb=0, u0=5, u1=4, u2=1, s0=5, s1=4, s2=0, retries=3, unlock=1, after=3, other=4)),
+                      (5, dict(onb=1, u0=5, u1=4, u2=1, s0=5, s1=4, s2=0, retries=3, unlock=1, after=3, other=0xff)),
+                      (12, dict(onb=1, u0=5, u1=3, u2=9, s0=5, s1=0, s2=0, retries=2, unlock=9, after=3, other=4)),
+                      (1, dict(onb=1, u0=5, u1=4, u2=1, s0=5, s1=4, s2=1, retries=3, unlock=1, after=3, other=4))])
+def bring_up(onb: int, u0: int, u1: int, u2: int, s0: int, s1: int, s2: int, retries: int, unlock: int,
+             after: int, other: int, react: int = 0, commit_fails: bool = False) -> bool:
+    """
+    pre: 0 <= onb <= 255 and 0 <= retries <= 255 and 0 <= unlock <= 255 and 0 <= after <= 255
+    pre: 0 <= u0 <= 255 and 0 <= u1 <= 255 and 0 <= u2 <= 255
+    pre: 0 <= s0 <= 255 and 0 <= s1 <= 255 and 0 <= s2 <= 255
+    pre: 0 <= other <= 255 and other != 2 and other != 3
+    pre: 0 <= react <= 5
+    post: _
+    """
+    platform, mclass, echo_ok, change = BRINGUP_PARTS[part()]
+    mode = {"bootloader": 2, "signer": 3, "other": other}[mclass]
+    d = SimDevice()
+    d.mode = mode
+    d.onboarded = onb
+    d.ui_version = (u0, u1, u2)
+    d.signer_version = (s0, s1, s2)
+    d.retries = retries
+    d.echo_ok = echo_ok
+    d.unlock_ok = unlock
+    d.mode_after_exit = after
+    d.newpin_reaction = ["ack", "refuse", "sw", "write", "read", "timeout"][react]
+    pin = FixedPin(needs_change=change)
+    pin.commit_fails = commit_fails
+    proto, dongle, world = make_stack(d, platform=platform, pin=pin, connect=False)
+    served = run_manager(proto)
+
+    uiv, sgv = (u0, u1, u2), (s0, s1, s2)
+    gates = onb == 1 and mode == 2 and supported(uiv) and echo_ok and retries >= 2
+    if onb != 1:
+        want = False
+    elif mode == 3:
+        want = supported(sgv)
+    elif mode == 2:
+        want = gates and unlock != 0 and (not change) and after == 3 and supported(sgv)
+    else:
+        want = False
+    ok = served == want
+
+    # the PIN / unlock command: at most once, only behind all the gates, and whenever the gates hold
+    cmds = [blist(a)[1] for a in world.apdus()]
+    unlock_cmd = 0xA3 if platform == "sgx" else 0xFE
+    n_unlock = len([c for c in cmds if c == unlock_cmd])
+    n_pinbytes = len([c for c in cmds if c == 0x41])
+    if n_unlock > 1:
+        ok = False
+    if (n_unlock > 0 or n_pinbytes > 0) and not gates:
+        ok = False
+    if gates and n_unlock != 1:
+        ok = False
+    if n_unlock == 1:
+        # ... and only after onboard check, mode, UI version, echo and retries were obtained (in that order)
+        first = cmds.index(0x41) if n_pinbytes > 0 else cmds.index(unlock_cmd)
+        echo_cmd = 0xA4 if platform == "sgx" else 0x02
+        retries_cmd = 0xA2 if platform == "sgx" else 0x45
+        if cmds[:first] != [0x06, 0x43, 0x06, echo_cmd, retries_cmd]:
+            ok = False
+        if len(d.unlock_pins) != 1 or bytes(d.unlock_pins[0]) != pin.get_pin():
+            ok = False
+    # a PIN change is only ever attempted after a successful unlock
+    if len(d.newpin_offered) > 0 and not (gates and unlock != 0 and change):
+        ok = False
+    return ok
